@@ -653,10 +653,159 @@ def garbage_sees_deleted(run, fx, rule='DETACH'):
                      % (sorted(flags) or 'none', [f[:3] for f in fs if 'flags' in f[0]]))
 
 
+def actionseq_exec(run, vm, maxn=3, maxlen=3):
+    """DETACH by bounded execution: "a slot a rule deletes is handed back to the segment" (Segment::freeSlot is where it leaves its
+    parent's child chain).  The call-threaded Machine::run is interpreted from its own CFG -- prologue, dispatch loop, EPILOGUE -- on
+    every program of 1..maxlen structural opcodes (NEXT, DELETE, INSERT; handlers from their own CFGs) ending in RET_ZERO, started on
+    every stream of 1..maxn matched slots with and without a slot in front; then SlotMap::collectGarbage is interpreted.  Afterwards
+    every slot that was marked deleted has been passed to Segment::freeSlot exactly once, no slot still in the stream was, and no map
+    cell that collectGarbage or the caller reads holds a freed slot.  (A program that dies leaves collection to the failure path.)"""
+    import itertools
+    from . import ordint as O
+    fx = vm.fx
+    PS, PM, PG, PV = 'graphite2::Slot::', 'graphite2::SlotMap::', 'graphite2::Segment::', 'graphite2::vm::Machine::'
+    srec = fx.record('graphite2::Slot')
+    DEL, COPIED = 1, 4
+    for e_ in fx.raw['enums'].values():
+        for c_ in e_.get('consts', []):
+            if c_.get('n') == 'DELETED':
+                DEL = c_.get('v')
+            if c_.get('n') == 'COPIED':
+                COPIED = c_.get('v')
+    mrun = [f for f in fx.fns_named('graphite2::vm::Machine::run') if 'call_machine' in f.where()]
+    cg = fx.one('graphite2::SlotMap::collectGarbage')
+    if len(mrun) != 1:
+        raise AnalysisBroken('the call-threaded Machine::run was not found')
+    mrun = mrun[0]
+    hs = {'N': vm.handlers['next'], 'D': vm.handlers['delete_'], 'I': vm.handlers['insert'], 'R': vm.handlers['ret_zero']}
+
+    def mkslot(k):
+        s_ = O.Rec()
+        for f in srec['fields']:
+            s_[PS + f['n']] = O.Ptr(None) if f.get('ptr') else 0
+        s_['#'] = k
+        return s_
+    cases = 0
+    fresh_prob = None
+    for n in range(1, maxn + 1):
+        for lead in (False, True):
+            for ln in range(1, maxlen + 1):
+                for prog in itertools.product('NDI', repeat=ln):
+                    # only programs the loader lets through: decoder::validate_opcode keeps an output index / output length per action
+                    # (NEXT may not step past the output, DELETE not in front of the rule, INSERT not past its end); modelled here
+                    oi, ol, okp = 0, n, True
+                    for c_ in prog:
+                        if c_ == 'N':
+                            oi += 1
+                            okp = okp and -1 <= oi <= ol
+                        elif c_ == 'I':
+                            ol += 1
+                            oi += 1 if oi < 0 else 0
+                            okp = okp and -1 <= oi < ol
+                        else:
+                            okp = okp and oi >= 0
+                            oi -= 1
+                            ol -= 1
+                            okp = okp and -1 <= oi <= ol
+                    if not okp:
+                        continue
+                    total = n + (1 if lead else 0) + 1          # one slot after the match
+                    slots = [mkslot(i) for i in range(total)]
+                    for i, sl in enumerate(slots):
+                        sl[PS + 'm_next'] = O.Ptr(slots[i + 1]) if i + 1 < total else O.Ptr(None)
+                        sl[PS + 'm_prev'] = O.Ptr(slots[i - 1]) if i else O.Ptr(None)
+                        sl[PS + 'm_before'] = sl[PS + 'm_after'] = sl[PS + 'm_original'] = i
+                    first = 1 if lead else 0
+                    seg = O.Rec({PG + 'm_first': O.Ptr(slots[0]), PG + 'm_last': O.Ptr(slots[-1]), PG + 'm_numGlyphs': total, PG + 'm_defaultOriginal': 0})
+                    mapvec = O.Vec([O.Ptr(slots[0]) if lead else O.Ptr(None)] + [O.Ptr(s_) for s_ in slots[first:]] + [O.Ptr(None)] * 3)
+                    smap = O.Rec({PM + 'segment': seg, PM + 'm_slot_map': O.It(mapvec, 0), PM + 'm_precontext': 0, PM + 'm_size': n + 1,
+                                  PM + 'm_highwater': O.Ptr(slots[-1]), PM + 'm_highpassed': False, PM + 'm_maxSize': 10, PM + 'm_dir': 0})
+                    mach = O.Rec({PV + '_map': smap, PV + '_stack': O.It(O.Vec([0] * 16), 0), PV + '_status': 0})
+                    fresh, freed = [], []
+
+                    def newslot(I, fn, e, obj, a, fresh=fresh):
+                        s_ = mkslot(100 + len(fresh))
+                        fresh.append(s_)
+                        return O.Ptr(s_)
+
+                    def freeslot(I, fn, e, obj, a, freed=freed):
+                        p_ = I.rv(a[0])
+                        freed.append(p_.rec)
+                        if p_.rec is not None:
+                            p_.rec[PS + 'm_flags'] = 0        # freeSlot re-initialises the slot
+                        return None
+                    nat = {'graphite2::Segment::newSlot': newslot, 'graphite2::Segment::freeSlot': freeslot,
+                           'graphite2::vm::Machine::check_final_stack': lambda I, fn, e, obj, a: None}
+                    it = O.Interp(fx, natives=nat)
+                    it.MAX_STEPS = 20000
+
+                    def cell(h):
+                        return lambda I, fn, e, obj, a, h=h: I.call(h, None, a)
+                    program = O.Vec([cell(hs[c_]) for c_ in prog] + [cell(hs['R'])])
+                    mapbox = [O.It(mapvec, 1)]
+                    desc = 'action %s RET_ZERO on %d matched slot(s)%s' % (' '.join({'N': 'NEXT', 'D': 'DELETE', 'I': 'INSERT'}[c_] for c_ in prog), n, ', a slot in front' if lead else ', at the start of the segment')
+                    cases += 1
+                    try:
+                        it.call(mrun, mach, [O.It(program, 0), O.It(O.Vec([0] * 4), 0), O.LV(mapbox, 0)])
+                    except O.Violation as v:
+                        return cases, '%s: %s (%s)' % (desc, v.what, v.loc), fresh_prob
+                    if mach[PV + '_status'] != 0:
+                        continue                    # the program died: the pass fails and the segment is thrown away
+                    everyone = slots + fresh
+                    marked = [s_ for s_ in everyone if s_[PS + 'm_flags'] & DEL]
+                    early = list(freed)
+                    cur = mapbox[0]
+                    curslot = [cur.vec.items[cur.idx]]
+                    try:
+                        it2 = O.Interp(fx, natives=nat)
+                        it2.MAX_STEPS = 20000
+                        it2.call(cg, smap, [O.LV(curslot, 0)])
+                    except O.Violation as v:
+                        return cases, '%s, then collectGarbage: %s (%s)' % (desc, v.what, v.loc), fresh_prob
+                    # the stream as it is now
+                    live, c_, guard = [], seg[PG + 'm_first'].rec, 0
+                    while c_ is not None and guard < 20:
+                        live.append(c_)
+                        c_ = c_[PS + 'm_next'].rec
+                        guard += 1
+                    for s_ in marked + [x for x in early if x is not None and x not in marked]:
+                        k_ = sum(1 for f_ in freed if f_ is s_)
+                        if k_ != 1:
+                            msg = ('%s: slot #%d was deleted by the action and is handed to Segment::freeSlot %d time(s) by the machine and collectGarbage together -- %s'
+                                   % (desc, s_['#'], k_, 'it stays in its parent\'s child chain although it has left the segment' if k_ == 0 else 'freed twice'))
+                            if s_['#'] >= 100 and k_ == 0:
+                                # the slot was INSERTed by this very action: it never had a cell in the slot map (known finding F24, separate instance)
+                                fresh_prob = fresh_prob or msg
+                                continue
+                            return cases, msg, fresh_prob
+                    for f_ in freed:
+                        if f_ is not None and any(f_ is l_ for l_ in live):
+                            return cases, '%s: slot #%d is still in the stream and was handed to Segment::freeSlot' % (desc, f_['#']), fresh_prob
+                    if curslot[0].rec is not None and any(curslot[0].rec is f_ for f_ in freed) and not any(curslot[0].rec is l_ for l_ in live):
+                        return cases, '%s: the cursor handed back to the pass is the freed slot #%d' % (desc, curslot[0].rec['#']), fresh_prob
+    return cases, None, fresh_prob
+
+
 def run(run):
     vm = R.get_vm(run)
     fx = vm.fx
     garbage_sees_deleted(run, fx)
+    i1_, i2_ = 'a slot an action deletes is handed back to the segment (Machine::run + collectGarbage interpreted)', 'a slot inserted and deleted by the same action is handed back to the segment'
+    mr_ = [f for f in fx.fns_named('graphite2::vm::Machine::run') if 'call_machine' in f.where()]
+    try:
+        from . import ordint as O3_
+        cases_, bad_, fresh_ = actionseq_exec(run, vm, 3, 3 if getattr(run, 'tier', 'quick') == 'quick' else 4)
+        w_ = mr_[0].where() if mr_ else ''
+        if bad_:
+            run.violated('DETACH', i1_, w_, bad_)
+        else:
+            run.held('DETACH', i1_, w_, '%d abstract executions' % cases_)
+        if fresh_:
+            run.violated('DETACH', i2_, w_, fresh_)
+        else:
+            run.held('DETACH', i2_, w_, '%d abstract executions' % cases_)
+    except AnalysisBroken as ex:
+        run.broken('DETACH', i1_, str(ex), '')
     sentinel_push(run, fx)
     garbage_after_action(run)
     treewriters(run, fx)
